@@ -153,6 +153,11 @@ POOLS['PText'] = [x for pair in zip(POOLS['PText'], TEXT_TRAPS + [None] * len(PO
     TEXT_TRAPS[len(POOLS['PText']):]
 
 
+POOLS['PText'] += ['q' * 256, 'r' * 257]
+POOLS['PBytes'] += [bytes(range(256)), bytes(range(256)) + b'\x01']
+POOLS['PBig'] += [2 ** 2047 - 1, -(2 ** 2048)]
+
+
 class Gen:
     def __init__(self, schema, rng, max_depth=6):
         self.s = schema
